@@ -50,7 +50,7 @@ BUILT["C05"] = (
     "spelling (upper/lower letter, word, trailing text), body shape (empty, trailing blank/comment) and one steering "
     "decoy (VERS/WRAP/NULL/DLM placed in ~C, ~P or the custom section); section keys, every item of every section, the "
     "~Other text and the data matrix (NaN exactly at the genuine NULL cell) must equal what the file was rendered from.",
-    "Trusts the independent renderer; more than one custom section and deviations beyond the bound are not covered.",
+    "Trusts the independent renderer; more than three custom sections and deviations beyond the bound are not covered.",
 )
 
 BUILT["C06"] = (
@@ -119,9 +119,9 @@ BUILT["C12"] = (
 BUILT["C16"] = (
     "model_checking",
     "explicit-state BFS over histories of edits and writes on real LASFile objects; frame, repeat and truthfulness invariants on every write transition",
-    "From 12 roots (scratch and read LASFiles: increasing/decreasing/irregular/single-sample index, units present or "
+    "From two dozen roots (scratch and read LASFiles: increasing/decreasing/irregular/single-sample index, units present or "
     "not, STOP/STRT disagreeing with data, 1.2, wrapped, text curve, duplicates) every history up to depth 3 (quick) / "
-    "4 (thorough) over 11 write configurations and 6 edits is executed; each write must (a) change nothing outside the "
+    "4 (thorough) over 11 write configurations and 9 edits is executed; each write must (a) change nothing outside the "
     "statement's allow-list (full snapshot diff), (b) be byte-identical and side-effect free when it repeats the "
     "previous write, (c) when the index is dirty, state STRT/STOP/STEP and units truthfully in read(output).",
     "index_initial (private change-detection anchor) is not protected content; truthfulness only required under the statement's trigger.",
@@ -130,8 +130,8 @@ BUILT["C16"] = (
 BUILT["C04"] = (
     "exploration",
     "exhaustive enumeration of header lines (field palettes x padding patterns x section kinds + special-form families) through read_header_line and lasio.read",
-    "All 6468 field combinations x 6 section kinds x every padding pattern with at most two non-default pads (plus the "
-    "all-padded line) - 9.6 million lines - and the complete special-form families (time values for all 24 hours with "
+    "All field combinations x 6 section kinds x every padding pattern with at most two non-default pads (plus the "
+    "all-padded line) - more than 18 million lines - and the complete special-form families (time values for all 24 hours with "
     "dates and colon-bearing ~Parameter descriptions, no-period lines, '1000 lbf' units) must parse to exactly the four "
     "stripped fields; thorough adds the full 5^6 pad product on a reduced palette; a second family goes through "
     "lasio.read and compares the resulting items.",
@@ -149,9 +149,9 @@ BUILT["C08"] = (
 )
 BUILT["C19"] = (
     "exploration",
-    "exhaustive enumeration of junk lines (all strings up to length 3/4 over a 13-symbol alphabet + adversarial long lines) x every insertion site x flag on/off, singles and pairs",
+    "exhaustive enumeration of junk lines (all strings up to length 3/4 over a 15-symbol alphabet + adversarial long lines) x every insertion site x flag on/off, singles and pairs",
     "Every junk line of length <= 3 (thorough 4) plus long adversarial lines inserted at every line boundary of ~V, ~W, "
-    "~P and a custom section of three base files (incl. duplicated mnemonics and version 1.2), and all pairs of short "
+    "~P and the custom sections of five base files (incl. duplicated mnemonics, version 1.2, LAS 3.0 and terse lines), and all pairs of short "
     "junk lines at all site pairs: with ignore_header_errors no exception, every genuine item present in order with "
     "unchanged original mnemonic/unit/value/description, curve data bit-identical; without the flag either the same "
     "result or LASHeaderError naming the junk line.",
@@ -173,7 +173,7 @@ BUILT["C13"] = (
 BUILT["C15"] = (
     "model_checking",
     "explicit-state exploration of sections built by operation histories; in every distinct state every probe key is tried through every access path against a first-match reference",
-    "In each of the states reachable by histories of depth <= 4 (quick) / 6 (thorough) from four roots, 14 probe keys "
+    "In each of the states reachable by histories of depth <= 3 (quick) / 5 (thorough) from 15 roots, 20 probe keys "
     "(present, absent, other case, blank, UNKNOWN, integer-like text, suffix forms, list-method names) go through "
     "membership, item access, attribute access, get(), get(add=True), value assignment and deletion, plus integer "
     "keys and slices; each must agree with 'first item whose session mnemonic equals the key under the section's "
@@ -194,8 +194,8 @@ BUILT["C17"] = (
 BUILT["C10"] = (
     "model_checking",
     "exhaustive channel x encoding x EOL product against the plain-string reference, plus stateless exploration of every history of reads/mutations/writes/copies up to a depth bound with observations compared to digests from a separate fresh interpreter",
-    "Part 1: three texts with non-ASCII header content through six input channels, eight storage/encoding settings and "
-    "LF/CRLF/CR give strictly equal canonical results. Part 2: every history up to depth 3 (quick) / 4 (thorough) over 25 "
+    "Part 1: texts with non-ASCII header content through six input channels, eight storage/encoding settings and "
+    "LF/CRLF/CR give strictly equal canonical results. Part 2: every history up to depth 3 (quick) / 4 (thorough) over 32 "
     "operations (reads from string/path/with other options, mutations of header values, default items, sections, curve "
     "names, data in place, append/delete, writes with options, fresh LASFile mutate/write, pickle, deepcopy) is executed "
     "in one interpreter; afterwards fresh reads of both texts, a fresh LASFile, a default write and the module-level "
@@ -205,7 +205,7 @@ BUILT["C10"] = (
 BUILT["C18"] = (
     "exploration",
     "exhaustive enumeration of objects x export option products x index-unit spellings, each output decoded by an independent reader (json strict, csv, openpyxl, pandas)",
-    "Eight LASFile objects (default, scratch with NaN/extreme values, single row, read files with integer/float/text "
+    "Hand-made LASFile objects and every object read from the shared input families (default, scratch with NaN/extreme values, single row, read files with integer/float/text "
     "header values, text curves, duplicates and blanks, header-only) are exported as JSON (strict parser, every header "
     "value and sample compared, NaN as null), CSV for the full 144-combination option product (header rows, record "
     "count, every field parsed back), Excel (both sheets re-read with openpyxl), df()/set_data_from_df; the depth "
@@ -216,7 +216,7 @@ BUILT["C18"] = (
 BUILT["C20"] = (
     "fault_enumeration",
     "clean-run I/O trace recording through builtins.open/io.open interposition, then OSError injected at every recorded operation of every call scenario; input-induced failure classes enumerated",
-    "For 37 call scenarios (read of plain/BOM/latin-1/wrapped/inner-~A files via str and pathlib paths under chardet, "
+    "For 90 call scenarios (read of plain/BOM/latin-1/wrapped/inner-~A files via str and pathlib paths under chardet, "
     "ad-hoc and explicit encodings; write(path)/to_csv(path) with options; caller-supplied file objects; no sections, "
     "LiDAR magic, header error, reshape error, strict decoding error, missing file, write()/to_csv() raising after "
     "open) the clean run's proxied operations are counted and the call repeated with an OSError at operation k for every "
